@@ -44,7 +44,11 @@ RULE = (
     "values rotating with the combination index and the seed (0, 1, 2^31, 2^63+1, 10^30, negative), storage 'config without "
     "backend' and zstd-disabled as rotating third states (exhaustive in thorough); per configuration the discovery probe plus "
     "route kinds 200/400/401/404/405/413/415/500/503, OPTIONS/HEAD/GET health, stream init, introspection, upload-URL, session, "
-    "pages; distinct by (configuration, route kind); foreign-header probe cases distinct by header set"
+    "pages; every combination is also paired with a 'bystander' — a make_wsgi_app setting that has no capability header "
+    "(proxy_auth_headers, an authenticator declaring proxy headers, no authenticator, CORS variants, OAuth metadata, token/cache "
+    "sizing, not-found page off, the deprecated max_stream_response_bytes alias) rotating with the index, plus a full bystander x "
+    "spread-of-combinations matrix; distinct by (configuration incl. bystander, route kind); foreign-header probe cases "
+    "distinct by header set"
 )
 PARTIAL = [
     "HttpServerCapabilities has no field for VGI-Proxy-Proof-Required / VGI-Token-Introspection: the probe cannot read those two settings back (headers themselves are checked)",
@@ -129,6 +133,45 @@ TTL_VALUES = [300.0, 1.0, 0.0, 86400.0, 7.0, 2.5, 0.9, 1e9]
 ECHO_SETS = [{"fly-force-instance-id": "abc"}, {"X-A": "1", "X-B": "2"}, {"a": "", "b": "", "c": ""}]
 
 
+# settings without a capability header (authentication flavour, proxy-header dependencies, CORS, OAuth metadata, pages,
+# token/cache sizing, the deprecated alias of max_response_bytes): each is combined with every capability combination
+BYSTANDERS = ["none", "proxy_auth_headers", "declared_proxy_auth", "no_auth", "cors_any", "cors_list", "oauth_meta",
+              "small_ttl", "no_not_found_page", "deprecated_alias", "proxy_auth_headers+declared"]
+
+
+def bystander_kwargs(name: str, cfg: dict[str, Any], prefix: str) -> dict[str, Any]:
+    from vgi_rpc.http import OAuthResourceMetadata, declare_proxy_headers
+
+    def declared() -> Any:
+        def fn(req: Any) -> AuthContext:
+            return _authenticate(req)
+
+        return declare_proxy_headers(fn, "X-Forwarded-Client-Cert")
+
+    if name == "proxy_auth_headers":
+        return {"proxy_auth_headers": ["X-Forwarded-User"]}
+    if name == "declared_proxy_auth":
+        return {"authenticate": declared()}
+    if name == "proxy_auth_headers+declared":
+        return {"authenticate": declared(), "proxy_auth_headers": ["X-Forwarded-User", "X-Real-IP"]}
+    if name == "no_auth":
+        return {"authenticate": None}
+    if name == "cors_any":
+        return {"cors_origins": "*"}
+    if name == "cors_list":
+        return {"cors_origins": ["http://o.example"], "cors_max_age": None, "cors_resource_policy": None}
+    if name == "oauth_meta":
+        return {"oauth_resource_metadata": OAuthResourceMetadata(
+            resource="http://localhost:8000" + prefix, authorization_servers=("https://auth.example.com",))}
+    if name == "small_ttl":
+        return {"token_ttl": 1, "call_state_cache_entries": 1}
+    if name == "no_not_found_page":
+        return {"enable_not_found_page": False}
+    if name == "deprecated_alias" and cfg["max_response_bytes"] is not None:
+        return {"max_response_bytes": None, "max_stream_response_bytes": cfg["max_response_bytes"]}
+    return {}
+
+
 def make_cfg(bits: tuple[int, ...], idx: int, seed: int, third: int) -> dict[str, Any]:
     """bits: (req, resp, ext, storage, upload, maxupload, compression, sticky(0..2), proof, introspect)."""
     req, resp, ext, storage, upload, mup, comp, sticky, proof, intro = bits
@@ -152,6 +195,8 @@ def make_cfg(bits: tuple[int, ...], idx: int, seed: int, third: int) -> dict[str
         "echo": ECHO_SETS[(idx + seed) % len(ECHO_SETS)] if sticky == 2 else None,
         "proof": bool(proof),
         "introspect": bool(intro),
+        # a setting of make_wsgi_app that has NO capability header: it must not change what is advertised
+        "bystander": BYSTANDERS[(idx * 5 + third + seed) % len(BYSTANDERS)],
     }
 
 
@@ -163,6 +208,9 @@ def model_cfg(cfg: dict[str, Any]) -> dict[str, Any]:
         "zstdAvailable": not cfg["zstd_disabled"], "proofRequired": cfg["proof"], "introspect": cfg["introspect"],
         "sticky": cfg["sticky"], "stickyTtl": int(cfg["sticky_ttl"]),
         "stickyEcho": [s2j(k) for k in (cfg["echo"] or {})],
+        # `proxy_hint` non-empty: proof required, proxy_auth_headers given, or the authenticator declares proxy headers
+        "proxyHint": bool(cfg["proof"]) or cfg.get("bystander", "none") in ("proxy_auth_headers", "declared_proxy_auth",
+                                                                           "proxy_auth_headers+declared"),
     }
 
 
@@ -248,8 +296,8 @@ def build(cfg: dict[str, Any], prefix: str, full_pages: bool) -> Any:
     try:
         with warnings.catch_warnings():
             warnings.simplefilter("ignore")
-            app = make_wsgi_app(
-                server, prefix=prefix, token_key=b"k" * 32, authenticate=_authenticate,
+            kw: dict[str, Any] = dict(
+                prefix=prefix, token_key=b"k" * 32, authenticate=_authenticate,
                 max_request_bytes=cfg["max_request_bytes"], max_response_bytes=cfg["max_response_bytes"],
                 max_externalized_response_bytes=cfg["max_externalized_response_bytes"],
                 upload_url_provider=_Provider() if cfg["upload"] else None, max_upload_bytes=cfg["max_upload_bytes"],
@@ -259,6 +307,8 @@ def build(cfg: dict[str, Any], prefix: str, full_pages: bool) -> Any:
                 introspect_principals=["alice"] if cfg["introspect"] else None,
                 enable_describe_page=full_pages, enable_landing_page=full_pages, cors_origins="*" if full_pages else None,
             )
+            kw.update(bystander_kwargs(cfg.get("bystander", "none"), cfg, prefix))
+            app = make_wsgi_app(server, **kw)
     finally:
         if old is None:
             os.environ.pop("VGI_HTTP_DISABLE_ZSTD", None)
@@ -323,17 +373,19 @@ def check_response(ctx: Any, cfg: dict[str, Any], prefix: str, kind: str, verb: 
     got = {k.lower(): v for k, v in headers.items() if k.lower() in ALL_CAPS}
     want = spec_headers(cfg)
     case = {"cfg": cfg, "prefix": prefix, "kind": kind, "verb": verb, "path": path, "full_pages": full_pages}
-    ctx.case(case, nontrivial=True, tags=(f"kind:{kind}", f"status:{status}"))
+    by = cfg.get("bystander", "none")
+    bk = "" if by == "none" else f":with:{by}"
+    ctx.case(case, nontrivial=True, tags=(f"kind:{kind}", f"status:{status}", f"bystander:{by}"))
     integral_ttl = float(cfg["sticky_ttl"]).is_integer()
     for name in ALL_CAPS:
         if name == "vgi-sticky-default-ttl" and not integral_ttl:
             continue
         if name in want and name not in got:
-            ctx.fail(case, f"C40:missing:{name}:{kind}", f"{verb} {path} -> {status}: {name} is configured ({want[name]!r}) but absent")
+            ctx.fail(case, f"C40:missing:{name}:{kind}{bk}", f"{verb} {path} -> {status}: {name} is configured ({want[name]!r}) but absent")
         elif name not in want and name in got:
-            ctx.fail(case, f"C40:unexpected:{name}:{kind}", f"{verb} {path} -> {status}: {name}={got[name]!r} although the feature is not configured")
+            ctx.fail(case, f"C40:unexpected:{name}:{kind}{bk}", f"{verb} {path} -> {status}: {name}={got[name]!r} although the feature is not configured")
         elif name in want and got[name] != want[name]:
-            ctx.fail(case, f"C40:wrong-value:{name}:{kind}", f"{verb} {path} -> {status}: {name}={got[name]!r}, configured value is {want[name]!r}")
+            ctx.fail(case, f"C40:wrong-value:{name}:{kind}{bk}", f"{verb} {path} -> {status}: {name}={got[name]!r}, configured value is {want[name]!r}")
     if model_hdrs is not None and got != model_hdrs:
         ctx.mismatch(case, model_hdrs, got, "capability headers of a response: model capHeaders vs implementation")
 
@@ -497,6 +549,15 @@ def run(ctx: Any) -> None:
     ctx.exhaustive = True
     ctx.note("configurations", n)
     ctx.note("setting_combinations", len(bits))
+    # bystander matrix: every non-capability setting x a spread of capability combinations (incl. nothing / everything /
+    # each flag-type feature alone), all route kinds
+    spread = sorted({0, len(bits) - 1, *[i for i, b in enumerate(bits) if sum(1 for x in b if x) == 1],
+                     *[(ctx.seed * 131 + k * 97) % len(bits) for k in range(4 if not thorough else 40)]})
+    for by in BYSTANDERS:
+        for idx in spread:
+            cfg = make_cfg(bits[idx], idx, ctx.seed, idx % 12)
+            cfg["bystander"] = by
+            run_cfg(ctx, cfg, prefixes[idx % 3], False, None if thorough else 5)
     # every route kind (pages and CORS included) on a spread of configurations
     step = 8 if thorough else 37
     for idx in range(ctx.seed % step, len(bits), step):
